@@ -79,6 +79,8 @@ type c14Engine struct {
 	eng     *urlfilter.Engine
 	net     *urlfilter.NetworkEngine
 	storage *filterlist.RuleStorage
+	// shared are request objects used by all goroutines of a round.
+	shared map[*gen.Req]*rules.Request
 }
 
 // c14Twin maps a list (or a request) to its twin: same line lengths, hence
@@ -131,6 +133,17 @@ func c14Build(kind, content, file string) (*c14Engine, error) {
 	return e, nil
 }
 
+// req returns the request object of a query: a fresh one, or, when the round
+// shares request objects between goroutines (the callers own them and the
+// engines only read them), the one built before the goroutines started.
+func (e *c14Engine) req(q *gen.Req) *rules.Request {
+	if r, ok := e.shared[q]; ok {
+		return r
+	}
+
+	return q.Build()
+}
+
 // answer returns the canonical answer of one query.
 func (e *c14Engine) answer(q *gen.Req) string {
 	kind := e.kind
@@ -149,7 +162,7 @@ func (e *c14Engine) answer(q *gen.Req) string {
 			" v4=" + strings.Join(c08HostTexts(res.HostRulesV4), ";") + " v6=" + strings.Join(c08HostTexts(res.HostRulesV6), ";") + " m=" + boolStr(m) +
 			" rw=" + strings.Join(util.Sorted(util.Texts(res.DNSRewrites())), ";")
 	case "engine":
-		mr := e.eng.MatchRequest(q.Build())
+		mr := e.eng.MatchRequest(e.req(q))
 
 		return "basic=" + c08Text(mr.BasicRule) + " doc=" + c08Text(mr.DocumentRule) + " stealth=" + c08Text(mr.StealthRule) + " res=" + c08Text(mr.GetBasicResult())
 	case "cosmetic":
@@ -157,7 +170,7 @@ func (e *c14Engine) answer(q *gen.Req) string {
 
 		return "g=" + strings.Join(util.Sorted(cr.ElementHiding.Generic), ";") + " s=" + strings.Join(util.Sorted(cr.ElementHiding.Specific), ";")
 	default:
-		return strings.Join(util.Sorted(util.Texts(e.net.MatchAll(q.Build()))), ";")
+		return strings.Join(util.Sorted(util.Texts(e.net.MatchAll(e.req(q)))), ";")
 	}
 }
 
@@ -289,6 +302,16 @@ func c14Run(c *core.Ctx, idx int) {
 		return
 	}
 	defer conEng.storage.Close()
+	if c.Rng.Intn(2) == 0 {
+		// Every goroutine passes the SAME request objects to the engine.
+		conEng.shared = map[*gen.Req]*rules.Request{}
+		for _, q := range distinct {
+			if !q.HostnameReq {
+				conEng.shared[q] = q.Build()
+			}
+		}
+		c.Event("rounds_with_request_objects_shared_between_goroutines", 1)
+	}
 	sched := mon.NewSched(c.Rng.Int63(), mode, []float64{0.05, 0.2, 0.5}[c.Rng.Intn(3)])
 	sched.OffsetKeys = twin
 	mon.SetExtra(sched.Handle)
